@@ -5,6 +5,9 @@
 #include "stir_util.h"
 #include "c18_common.h"
 #include "c18_more.h"
+#include "num_threads_once.h"
+#include <sys/wait.h>
+#include <unistd.h>
 
 using namespace stir;
 using sim::Op;
@@ -30,10 +33,43 @@ gen(uint64_t seed, const std::string& tier, long idx)
   static const char* scen[] = { "fwd", "bck", "lazy", "cache", "objfn", "norm", "scatter", "fwd", "bck", "cache", "array", "lm", "bck_nt" };
   Op o;
   o.kind = scen[idx % (sizeof scen / sizeof *scen)];
+  if (idx % 97 == 96)
+    o.kind = "env"; // about one run in a hundred
   p.ops.push_back(o);
   c18::gen_config(p, r, thorough);
+  p.cfg["env_pick"] = (long)r.below(10);
   p.cfg["scat_small"] = 1; // the scatter scenario of C18 stays small (C16 runs the larger ones)
   return p;
+}
+
+// The number of threads comes from the environment at the FIRST set_num_threads() of a process: a fresh process per trial
+// (this executable started again with --env-probe) with a drawn OMP_NUM_THREADS, incl. values a user can mistype.
+void
+run_env(const Plan& p, sim::Result& res)
+{
+  res.cls = "env";
+  res.nontrivial = true;
+  static const char* vals[] = { "4", "1", "0", "", "abc", "2,2", "-3", "007", " 3", "16" };
+  const char* v = vals[p.c("env_pick", 0) % 10];
+  fflush(nullptr);
+  const pid_t pid = fork();
+  if (pid == 0)
+    {
+      setenv("OMP_NUM_THREADS", v, 1);
+      alarm(60);
+      execl("/proc/self/exe", "chk_C18", "--env-probe", (char*)nullptr);
+      _exit(127);
+    }
+  int st = 0;
+  waitpid(pid, &st, 0);
+  sim::logf("env probe OMP_NUM_THREADS='%s' status %d", v, st);
+  sim::probe("first_set_num_threads_in_fresh_process");
+  if (WIFSIGNALED(st))
+    sim::fail("env:first_set_num_threads_died", "a process started with OMP_NUM_THREADS='%s' died with signal %d in its first set_num_threads()", v,
+              WTERMSIG(st));
+  if (!WIFEXITED(st) || WEXITSTATUS(st) != 0)
+    sim::fail("env:first_set_num_threads_failed", "a process started with OMP_NUM_THREADS='%s' ended with status %d in its first set_num_threads()", v,
+              WIFEXITED(st) ? WEXITSTATUS(st) : -1);
 }
 
 void
@@ -42,6 +78,11 @@ run(const Plan& p, sim::Result& res)
   vu::quiet();
   if (p.ops.empty())
     return;
+  if (p.ops[0].kind == "env")
+    {
+      run_env(p, res);
+      return;
+    }
   c18::run_scenario(p, p.ops[0].kind, res);
 }
 
@@ -50,6 +91,12 @@ run(const Plan& p, sim::Result& res)
 int
 main(int argc, char** argv)
 {
+  if (argc == 2 && std::string(argv[1]) == "--env-probe")
+    {
+      // fresh process: what every STIR program does first
+      stir::set_num_threads();
+      return stir::get_max_num_threads() >= 1 ? 0 : 3;
+    }
   sim::Harness h;
   h.prop = "C18";
 #ifdef SIM_TSAN
